@@ -88,6 +88,8 @@ class Reg(Logic):
             self.reset_value = 0
             
         self.value = self.reset_value
+        # the register powers up holding its reset value (as the generated Verilog does)
+        self.q.put(self.value)
         
     def clock(self):
         setValue = True
